@@ -70,7 +70,7 @@ PROPS = {
         'not_decided': ['Python parsing semantics of the produced text beyond the enumerated cases'],
     },
     'C05': {
-        'families': ['contracts.sigdiff', 'contracts.sigdefaults', 'contracts.native'],
+        'families': ['contracts.sigdiff', 'contracts.sigdefaults', 'contracts.sigsim', 'contracts.native'],
         'level': 'proof',
         'technique': 'contract-based deductive verification + solver-checked lemmas over the contracts; bounded native stand-in for the closure clause',
         'text': 'FieldSignature.get_attr_value/__eq__/diff against abstract views (diff lists exactly the attributes whose '
